@@ -492,10 +492,10 @@ Definition parse_fuel (d : dialect) (fuel : nat) (toks : list ptok) : parse_resu
   | POut => ParseOutOfFuel
   end.
 
-(* every function call spends one unit of fuel; 16 per token + 16 suffice for every printed tree
+(* every function call spends one unit of fuel; 32 per token + 32 suffice for every printed tree
    (ParserFacts) *)
 Definition parse_d (d : dialect) (toks : list ptok) : parse_result :=
-  parse_fuel d (16 * length toks + 16) toks.
+  parse_fuel d (32 * length toks + 32) toks.
 
 (* Lua 5.1 *)
 Definition parse (toks : list ptok) : parse_result := parse_d strict toks.
